@@ -7,6 +7,7 @@ import (
 	"math"
 	"math/big"
 	"sort"
+	"strconv"
 	"strings"
 	"testing"
 	"time"
@@ -21,7 +22,7 @@ import (
 	"verif/internal/wx"
 )
 
-var suite = vrt.NewSuite("C19", "(tree a, edit script, ignore paths, form): b is derived from a by 0-4 generated edits (change a scalar, replace a subtree by another kind, delete / add a member, set a member to null, append / drop array elements, no-op edits) and optionally by re-typing its numbers to other widths with the same value (int8..uint64, float32/64); both are compared as simple trees or, converted node by node, as gen trees; ignore paths are drawn from prefixes of paths that exist in a or b with wildcards mixed in. Oracle: a reference recursive comparison written from the documentation (numbers by exact value, a null member equals an absent one, extra array elements are differences at their index). Diff must return exactly the reference differences that no ignore path covers (for a length difference: at least one of the uncovered extra indexes, and nothing else); Compare must be nil exactly when Diff is empty and otherwise one of Diff's paths; Match(f, t) with f a generated sub-fingerprint of t (possibly edited) must equal the reference subset relation. Non-trivial = at least one real difference below the root, or an ignore path that covers a real difference; distinct = distinct (a, b, ignores, form)")
+var suite = vrt.NewSuite("C19", "(tree a, edit script, ignore paths, form): b is derived from a by 0-4 generated edits (change a scalar, replace a subtree by another kind, delete / add a member, set a member to null, append / drop array elements, no-op edits) and optionally by re-typing its numbers to other widths with the same value (int8..uint64, float32/64), or by planting numbers at and beyond the edges of int64 (uint64 / uint above MaxInt64, MinInt64, 2^63 and 2^64 as floats) in the same or different kinds on the two sides; both are compared as simple trees or, converted node by node, as gen trees; ignore paths are drawn from prefixes of paths that exist in a or b with wildcards mixed in. Oracle: a reference recursive comparison written from the documentation (numbers by exact value, a null member equals an absent one, extra array elements are differences at their index). Diff must return exactly the reference differences that no ignore path covers (for a length difference: at least one of the uncovered extra indexes, and nothing else); Compare must be nil exactly when Diff is empty and otherwise one of Diff's paths; Match(f, t) with f a generated sub-fingerprint of t (possibly edited) must equal the reference subset relation. Non-trivial = at least one real difference below the root, or an ignore path that covers a real difference; distinct = distinct (a, b, ignores, form)")
 
 // El is a path element: key, index or wildcard.
 type El struct {
@@ -43,9 +44,47 @@ type Case struct {
 	Form    string `json:"form"`             // simple | gen
 	Retype  int    `json:"retype,omitempty"` // 0 = keep, otherwise seed for re-typing b's numbers
 	Swap    bool   `json:"swap,omitempty"`   // compare (b, a) instead of (a, b)
+	// Wide: a number beyond int64 (or at its edges) planted at one leaf of both sides before the
+	// edits, each side with a value and a Go kind of its own (simple form only)
+	Wide *Wide `json:"wide,omitempty"`
 	// Match check: f = subset(a, FPSeed) with FPEdits applied, t = a
 	FPSeed  int    `json:"fpseed,omitempty"`
 	FPEdits []Edit `json:"fpedits,omitempty"`
+}
+
+type Wide struct {
+	Path []El   `json:"path"`
+	A    string `json:"a"` // decimal text
+	KA   string `json:"ka"`
+	B    string `json:"b"`
+	KB   string `json:"kb"`
+}
+
+// wideVal builds the Go value of the named kind for the decimal text.
+func wideVal(text, kind string) any {
+	switch kind {
+	case "uint64":
+		u, _ := strconv.ParseUint(text, 10, 64)
+		return u
+	case "uint":
+		u, _ := strconv.ParseUint(text, 10, 64)
+		return uint(u)
+	case "int64":
+		i, _ := strconv.ParseInt(text, 10, 64)
+		return i
+	case "int":
+		i, _ := strconv.ParseInt(text, 10, 64)
+		return int(i)
+	}
+	f, _ := strconv.ParseFloat(text, 64)
+	return f
+}
+
+var widePool = []struct{ text, kind string }{
+	{"9223372036854775808", "uint64"}, {"9223372036854775808", "uint"}, {"9223372036854775809", "uint64"}, {"18446744073709551615", "uint64"},
+	{"18446744073709551615", "uint"}, {"18446744073709551614", "uint64"}, {"9223372036854775807", "uint64"}, {"9223372036854775807", "int64"},
+	{"-9223372036854775808", "int64"}, {"-9223372036854775808", "int"}, {"-1", "int64"}, {"-2", "int"}, {"9223372036854775808", "float64"}, {"18446744073709551616", "float64"},
+	{"-9223372036854775808", "float64"}, {"0", "uint64"}, {"1", "uint"},
 }
 
 func TestMain(m *testing.M) {
@@ -514,6 +553,12 @@ func form(v any, f string) any {
 func Run(cs Case, c *vrt.Ctx) {
 	a := wx.Dec(cs.A)
 	b := wx.Dec(cs.A) // decoded again: equal times in a zone have a *time.Location of their own on each side
+	if cs.Wide != nil && cs.Form == "simple" {
+		a = apply(a, cs.Wide.Path, "set", wideVal(cs.Wide.A, cs.Wide.KA))
+		b = apply(b, cs.Wide.Path, "set", wideVal(cs.Wide.B, cs.Wide.KB))
+		c.Class("wide-number")
+		c.Tag("wide:" + cs.Wide.KA + "/" + cs.Wide.KB)
+	}
 	for _, e := range cs.Edits {
 		b = apply(b, e.Path, e.Op, wx.Dec(e.Val))
 	}
@@ -852,6 +897,20 @@ func drawCase(t *rapid.T) Case {
 		cs.Retype = rapid.IntRange(1, 1000).Draw(t, "retype-seed")
 	}
 	cs.Swap = rapid.Bool().Draw(t, "swap")
+	if cs.Form == "simple" && rapid.IntRange(0, 5).Draw(t, "wide") == 0 {
+		// a number at or beyond the edges of int64 at one leaf, on both sides: the same value in
+		// the same or another kind (no difference), or another value (a difference)
+		var lps [][]El
+		paths(a, nil, &lps)
+		if len(lps) > 0 {
+			wa := widePool[rapid.IntRange(0, len(widePool)-1).Draw(t, "wide-a")]
+			wb := wa
+			if rapid.IntRange(0, 2).Draw(t, "wide-other") != 0 {
+				wb = widePool[rapid.IntRange(0, len(widePool)-1).Draw(t, "wide-b")]
+			}
+			cs.Wide = &Wide{Path: lps[rapid.IntRange(0, len(lps)-1).Draw(t, "wide-path")], A: wa.text, KA: wa.kind, B: wb.text, KB: wb.kind}
+		}
+	}
 	// ignore paths: prefixes of existing paths with wildcards mixed in
 	var ps [][]El
 	paths(a, nil, &ps)
